@@ -722,8 +722,7 @@ End WithTokens.
 Definition is_empty_qstring (l : lexem) : bool := match l with QString [] => true | _ => false end.
 
 (* the first loop of Parser::parse *)
-Definition parser_tokens (parts : list str) : list lexem :=
-  filter (fun l => negb (is_empty_qstring l)) (lex parts).
+Definition parser_tokens (parts : list str) : list lexem := lex parts.      (* empty quoted strings are kept (fix of F45) *)
 
 Definition parse_tokens (toks : list lexem) : res query :=
   match parse_main toks (mkPS 0 false false) with
